@@ -77,6 +77,15 @@ def generate(rng, n, tier):
         for cls in classes:
             for s in strs:
                 yield {"pos": "cmp", "cls": cls, "value": repr(s)}
+    # boundary values in every position of every class (both tiers)
+    edge = [repr(x) for x in ["", " ", "'", "''", "\\", 0, 0.0, False, True, "0", "--", "/*", -1]] + ["D('0')"]
+    for cls in classes:
+        poss = list(POSITIONS) + list(DIALECT_POSITIONS.get(cls, {}))
+        if cls == "generic":
+            poss += list(DDL_POSITIONS)
+        for pos in poss:
+            for v in edge:
+                yield {"pos": pos, "cls": cls, "value": v}
     for i in range(n):
         cls = rng.choice(classes)
         x = rng.random()
